@@ -61,6 +61,18 @@ def build(case):
             isig = h[n].op.inner_signature()
             h.add_node(ops.Input(isig.input), n)
             h.add_node(ops.Output(isig.output), n)
+    if case.get("fnconst"):
+        # a function-valued constant whose body has `fnconst` operations (serializing the HUGR serializes the body
+        # inside: the two serializations must not share anything)
+        from hugr import ops, tys, val
+        from hugr.build.dfg import Dfg
+
+        body = Dfg(tys.Bool)
+        w = body.inputs()[0]
+        for _ in range(case["fnconst"]):
+            w = body.add_op(ops.Noop(tys.Bool), w)[0]
+        body.set_outputs(w)
+        h.add_node(ops.Const(val.Function(body.hugr)), h.root)
     hist = case.get("hist") or []
     # every other history is interrupted by serializations (pure queries) after every second step
     turn = [0]
